@@ -350,6 +350,47 @@ func ruleOPT8(c *Ctx) {
 		}
 	}
 	c.Check(okAllArgs, "ArgumentList.Evaluate / every argument is evaluated unless one fails", p.Pos(fn.Pos()), "loop ends by exhaustion or an error return", whyArgs)
+	// on every call: the list keeps no values of its own (it has no invalidation protocol; the argument expressions
+	// are shared nodes, so "all arguments are still remembered" does not mean "nobody re-evaluated one in between").
+	// Every success return hands out the slice made in this call, and none is reached around the loop.
+	okFresh, whyFresh := true, ""
+	for _, r := range returnsOf(fn) {
+		if returnsNonNilError(r) || len(r.Results) < 1 {
+			continue
+		}
+		if isNilConst(r.Results[0]) {
+			continue
+		}
+		fresh := false
+		backSlice(r.Results[0], func(v ssa.Value) bool {
+			switch v.(type) {
+			case *ssa.MakeSlice, *ssa.Alloc:
+				fresh = true
+				return false
+			}
+			if f, _ := fieldLoad(v); f != nil {
+				whyFresh = "a success return hands out what is kept in the field " + f.Name() + ": the values of an earlier evaluation reach the callee (C.X + 1 > 2 && C.Over(C.X + 1): the shared operand is re-evaluated by the comparison, the call still gets the old value)"
+				okFresh = false
+				return false
+			}
+			return true
+		})
+		if !fresh && okFresh {
+			okFresh, whyFresh = false, "a success return does not hand out a slice made in this call"
+		}
+	}
+	for _, l := range loopsA {
+		if f, _ := fieldLoad(rangeOperand(l)); f != argsF {
+			continue
+		}
+		if t, _ := reach(fn, nil, func(in ssa.Instruction) bool {
+			r, ok := in.(*ssa.Return)
+			return ok && !returnsNonNilError(r)
+		}, func(in ssa.Instruction) bool { return in.Block() == l.Header && instrIndex(in) == 0 }, nil); t != nil && okFresh {
+			okFresh, whyFresh = false, "a success return at "+p.InstrPos(t)+" is reached without running the loop over Arguments"
+		}
+	}
+	c.Check(okFresh, "ArgumentList.Evaluate / the values handed out are collected in this call", p.Pos(fn.Pos()), "fresh slice, loop on every path to a success return", whyFresh)
 	// the evaluated slice reaches CallFunction unchanged
 	atom := p.Method("ast", "ExpressionAtom", "Evaluate")
 	if atom == nil {
